@@ -8,7 +8,7 @@ UNITS = {
     "handle_a": [TF], "handle_b": [TF], "handle_b2": [TF], "handle_c": [TF], "handle_d": [TF],
     "logger": [TF],
     "lh": [TF],
-    "flw": [()],
+    "flw": [(), ("async",)],
     "multi": [()],
     "dispatch": [("async",)],
     "handle_async": [("async",)],
@@ -21,26 +21,29 @@ UNITS = {
     "listing": [()],
     "swrite": [()],
     "cleanup": [()],
+    "lbuild": [()],
+    "collide": [()],
+    "latest": [()],
     "stdw": [("async",)],
 }
 
 # property -> list of (unit, features)
 PROP_UNITS = {
-    "C01": [("state", ()), ("handle", ()), ("swrite", ())],
-    "C02": [("spec", TF), ("logger", TF), ("handle_c", TF), ("handle_d", TF)],
-    "C04": [("state", ()), ("handle", ()), ("flw", ()), ("primary", ()), ("dispatch", ("async",)), ("stdw", ("async",)), ("lh", TF)],
-    "C05": [("handle_a", TF), ("handle_b", TF), ("handle_b2", TF), ("handle_c", TF), ("spec", TF)],
-    "C06": [("state", ()), ("timestamps", ()), ("builder", ())],
-    "C07": [("state", ()), ("listing", ()), ("cleanup", ())],
+    "C01": [("state", ()), ("handle", ()), ("swrite", ()), ("collide", ())],
+    "C02": [("spec", TF), ("logger", TF), ("handle_c", TF), ("handle_d", TF), ("lbuild", ())],
+    "C04": [("state", ()), ("handle", ()), ("flw", ()), ("primary", ()), ("dispatch", ("async",)), ("stdw", ("async",)), ("lh", TF), ("lbuild", ())],
+    "C05": [("handle_a", TF), ("handle_b", TF), ("handle_b2", TF), ("handle_c", TF), ("spec", TF), ("lbuild", ())],
+    "C06": [("state", ()), ("timestamps", ()), ("builder", ()), ("collide", ()), ("latest", ())],
+    "C07": [("state", ()), ("listing", ()), ("cleanup", ()), ("collide", ())],
     "C08": [("state", ())],
     "C09": [("state", ()), ("timestamps", ())],
-    "C13": [("logger", TF), ("flw", ()), ("multi", ()), ("primary", ()), ("lh", TF)],
-    "C14": [("state", ()), ("listing", ()), ("naming", ()), ("timestamps", ()), ("cleanup", ())],
-    "C15": [("state", ()), ("handle", ()), ("flw", ()), ("dispatch", ("async",)), ("handle_async", ("async",)), ("swrite", ()), ("stdw", ("async",))],
+    "C13": [("logger", TF), ("flw", ()), ("multi", ()), ("primary", ()), ("lh", TF), ("lbuild", ())],
+    "C14": [("state", ()), ("listing", ()), ("naming", ()), ("timestamps", ()), ("cleanup", ()), ("latest", ())],
+    "C15": [("state", ()), ("handle", ()), ("flw", ()), ("dispatch", ("async",)), ("handle_async", ("async",)), ("swrite", ()), ("stdw", ("async",)), ("lbuild", ()), ("flw", ("async",))],
     "C16": [("naming", ()), ("listing", ()), ("state", ()), ("builder", ())],
     "C18": [("state", ()), ("handle", ()), ("builder", ()), ("lh", TF)],
-    "C19": [("state", ()), ("logger", TF), ("multi", ()), ("timestamps", ()), ("swrite", ())],
-    "C20": [("swrite", ()), ("stdw", ("async",)), ("handle_async", ("async",)), ("dnow", ())],
+    "C19": [("state", ()), ("logger", TF), ("multi", ()), ("timestamps", ()), ("swrite", ()), ("lbuild", ())],
+    "C20": [("swrite", ()), ("stdw", ("async",)), ("handle_async", ("async",)), ("dnow", ()), ("lbuild", ()), ("builder", ()), ("flw", ())],
 }
 
 # property -> Kani groups (see lib/kani_unit.py)
